@@ -2,7 +2,7 @@
 # tools/psoak.sh [seed] [parallel]: every claimed check (quick tier) on the unchanged tree, several at a time; one line per check
 cd "$(dirname "$0")/.."
 SEED=${1:-0}; PAR=${2:-5}
-PROPS=$(python3 -c "import json;print(' '.join(c['property_id'] for c in json.load(open('MANIFEST.json'))['checks']))")
+PROPS=${PROPS:-$(python3 -c "import json;print(' '.join(c['property_id'] for c in json.load(open('MANIFEST.json'))['checks']))")}
 one() {
   p=$1; t0=$(date +%s)
   out=$(VERIF_SEED=$SEED timeout 3000 ./check $p --tier quick 2>&1); rc=$?
